@@ -296,6 +296,11 @@ fn try_exchange_jobs_in_routes(
     let search_ctx: SearchContext = (insertion_ctx, leg_selection, result_selector);
     let (outer_idx, inner_idx) = route_pair;
 
+    // NOTE: route pairs are indexed upfront, but a route which gets empty after an exchange is removed
+    if outer_idx.max(inner_idx) >= insertion_ctx.solution.routes.len() {
+        return false;
+    }
+
     let outer_route_ctx = get_route_by_idx(insertion_ctx, outer_idx);
     let inner_route_ctx = get_route_by_idx(insertion_ctx, inner_idx);
 
